@@ -349,8 +349,10 @@ def idValues (p m kMin u : Int) (exprOf : Int → Int) (exprNative : Int) :
     (modId m kMin mj vb.1 (exprOf mj) u vj % p) :: idValues p m kMin u exprOf exprNative ms vsb vjs
   | _, _, _ => [nativeId m kMin exprNative u % p]
 
-def fmtRow (u : Int) (vjs : List Int) (ok : Bool) : String :=
-  s!"{u} {fmtInts vjs} {if ok then "ok" else "BAD"}"
+/-- `cells`: advice cells the region assigns; `rc`: range checks (`assert_lower_than_fixed`
+calls) issued for the cells of the region. -/
+def fmtRow (u : Int) (vjs : List Int) (ok : Bool) (cells rc : Nat) : String :=
+  s!"{u} {fmtInts vjs} {if ok then "ok" else "BAD"} cells={cells} rc={rc}"
 
 def answer (line : String) : String :=
   if line.startsWith "fp " then answerProg line else
@@ -386,7 +388,8 @@ def answer (line : String) : String :=
         let w := P.mulWitness b xs ys zs
         let ok := P.mulGateHolds b xs ys zs w.1 w.2 && decide (0 ≤ w.1) && decide (w.1 < b.uMax)
           && vjsInRange b.vs w.2 && decide (w.2.length = b.vs.length)
-        fmtRow w.1 w.2 ok
+        -- x, z, y limbs, u, vs; range checks on u and every vj
+        fmtRow w.1 w.2 ok (3 * P.nbLimbs + 1 + b.vs.length) (1 + b.vs.length)
       | .error e => e
     | _, _, _, _ => "bad-op"
   | ["normrow", name, xs] =>
@@ -397,7 +400,8 @@ def answer (line : String) : String :=
         let w := P.normWitness b xs
         let ok := P.normGateHolds b xs w.1 w.2.1 w.2.2 && decide (0 ≤ w.2.1) && decide (w.2.1 < b.uMax)
           && vjsInRange b.vs w.2.2 && P.wellFormedOk w.1 && decide (w.2.2.length = b.vs.length)
-        s!"{fmtInts w.1} {fmtRow w.2.1 w.2.2 ok}"
+        -- x, z limbs, u, vs; range checks on every z limb, u and every vj
+        s!"{fmtInts w.1} {fmtRow w.2.1 w.2.2 ok (2 * P.nbLimbs + 1 + b.vs.length) (P.nbLimbs + 1 + b.vs.length)}"
       | .error e => e
     | _, _ => "bad-op"
   | ["params", name] =>
